@@ -40,6 +40,13 @@ const KINDS: &[Kind] = &[
     Kind { name: "type: not int", body: &["x := not 1"], top: &[], either: false },
     Kind { name: "break outside loop", body: &["break"], top: &[], either: false },
     Kind { name: "git conflict marker", body: &[], top: &["<<<<<<< HEAD"], either: false },
+    // constructs spanning several lines: the diagnostic names the line of the offending part (marked @@,
+    // default: the last line), not the line where the construct starts
+    Kind { name: "type: wrong argument on the last line of a multi-line call", body: &["t_q :: lit3_q(1,\n             2,\n             \"three\")"], top: &[], either: false },
+    Kind { name: "type: wrong argument on the last line of a multi-line prime call", body: &["t_q :: lit3_q' 1,\n    2,\n    \"three\""], top: &[], either: false },
+    Kind { name: "type: wrong argument on the middle line of a multi-line call", body: &["t_q :: lit3_q(1,\n    \"two\",@@\n    3)"], top: &[], either: false },
+    Kind { name: "unresolved name on the middle line of a multi-line call", body: &["t_q :: lit3_q(1,\n    undefined_name_q,@@\n    3)"], top: &[], either: false },
+    Kind { name: "type: wrong argument inside a nested multi-line call", body: &["t_q :: lit3_q(1,\n    lit3_q(1,\n        2,\n        \"s\"),@@\n    3)"], top: &[], either: false },
     // constructs that mention ANOTHER file's namespace (@NS@): the error belongs to the using file
     Kind { name: "unresolved name in another namespace", body: &["x := @NS@.undefined_q"], top: &[], either: false },
     Kind { name: "unresolved function in another namespace", body: &["@NS@.undefined_fn_q(1)"], top: &[], either: false },
@@ -132,6 +139,7 @@ fn build(rng: &mut Rng, kind: &Kind, shape: Shape, where_: usize) -> Built {
         filler_top(rng, shape, &mut uid, &mut t);
         if fi == 0 {
             t.push_str(&format!("lit_q :: fn a: int -> int do\n{}a\nend\n", ind));
+            t.push_str(&format!("lit3_q :: fn a: int, b: int, c: int -> int do\n{}a\nend\n", ind));
         }
         if uses_ns && fi == ns_file {
             t.push_str(NS_EXPORTS);
@@ -154,11 +162,17 @@ fn build(rng: &mut Rng, kind: &Kind, shape: Shape, where_: usize) -> Built {
                 filler_stmt(rng, shape, &mut uid, ind, &mut t);
                 for (k, l) in kind.body.iter().enumerate() {
                     if k == kind.body.len() - 1 {
-                        lines.push(t.matches('\n').count() + 1);
+                        // an entry may span lines: the offending one carries @@ (default: its last line)
+                        let within = match l.lines().position(|x| x.contains("@@")) {
+                            Some(i) => i,
+                            None => l.lines().count().saturating_sub(1),
+                        };
+                        lines.push(t.matches('\n').count() + 1 + within);
                     }
-                    // `lit_q` lives in main
-                    let l = if fi != 0 { l.replace("lit_q(", "main.lit_q(") } else { l.to_string() };
-                    let l = l.replace("@NS@", ns_name);
+                    // `lit_q` / `lit3_q` live in main
+                    let l = if fi != 0 { l.replace("lit_q(", "main.lit_q(").replace("lit3_q(", "main.lit3_q(").replace("lit3_q'", "main.lit3_q'") } else { l.to_string() };
+                    let l = l.replace("@NS@", ns_name).replace("@@", "");
+                    let l = l.lines().collect::<Vec<_>>().join(&format!("\n{}", ind));
                     t.push_str(&format!("{}{}\n", ind, l));
                     if k + 1 < kind.body.len() {
                         filler_stmt(rng, shape, &mut uid, ind, &mut t);
@@ -171,7 +185,7 @@ fn build(rng: &mut Rng, kind: &Kind, shape: Shape, where_: usize) -> Built {
         filler_top(rng, shape, &mut uid, &mut t);
         if fi == 0 {
             t.push_str(&format!("start :: fn do\n{}z := 1\nend\n", ind));
-        } else if (uses_ns || kind.body.iter().any(|l| l.contains("lit_q"))) && fi == where_ {
+        } else if (uses_ns || kind.body.iter().any(|l| l.contains("lit_q") || l.contains("lit3_q"))) && fi == where_ {
             t = format!("use main\n{}", t);
             for l in lines.iter_mut() {
                 *l += 1;
@@ -258,7 +272,7 @@ impl Check for C15 {
         Finish {
             level: "exploration",
             rule: format!(
-                "one local error of {} kinds (syntax x9, unresolved name x2, duplicate global, assignment to constant, literal type mismatches x4, break outside loop, conflict marker, 11 constructs that mention another file's namespace: unresolved/mistyped qualified accesses, namespace as value, from-imports) is planted at a known line of the main file, the first or a later imported file; the rest of the project is valid text of one of {} shapes (plain ASCII, non-ASCII comments/strings, string literals spanning lines, CRLF, tabs, 1500-3000 character lines, runs of blank lines, mixed). Oracle: file and span.line_start of the first returned error equal the planted file and line (either definition line for duplicates). Non-trivial & distinct: (kind, file position, shape, instance).",
+                "one local error of {} kinds (syntax x9, unresolved name x2, duplicate global, assignment to constant, literal type mismatches x4, break outside loop, conflict marker, 5 multi-line calls whose offending argument is on a continuation line, 11 constructs that mention another file's namespace: unresolved/mistyped qualified accesses, namespace as value, from-imports) is planted at a known line of the main file, the first or a later imported file; the rest of the project is valid text of one of {} shapes (plain ASCII, non-ASCII comments/strings, string literals spanning lines, CRLF, tabs, 1500-3000 character lines, runs of blank lines, mixed). Oracle: file and span.line_start of the first returned error equal the planted file and line (either definition line for duplicates). Non-trivial & distinct: (kind, file position, shape, instance).",
                 KINDS.len(),
                 SHAPES.len()
             ),
